@@ -916,3 +916,64 @@ impl Mp4TrackWriter {
         Ok(self.trak.clone())
     }
 }
+
+/// Read-only snapshot of the muxer's per-track state (verification hook).
+#[cfg(feature = "verif-hooks")]
+#[derive(Debug, Clone, PartialEq, Eq)]
+pub struct VerifTrackState {
+    pub track_id: u32,
+    pub sample_id: u32,
+    pub chunk_samples: u32,
+    pub chunk_duration: u32,
+    pub chunk_buffer_len: usize,
+    pub is_fixed_sample_size: bool,
+    pub fixed_sample_size: u32,
+    pub stsz_sample_size: u32,
+    pub stsz_sample_count: u32,
+    pub stsz_len: usize,
+    pub stts_entries: usize,
+    pub stts_samples: u64,
+    pub ctts_entries: Option<usize>,
+    pub ctts_samples: Option<u64>,
+    pub stss_entries: Option<usize>,
+    pub stsc_entries: usize,
+    pub chunk_offsets: usize,
+    pub mdhd_duration: u64,
+    pub tkhd_duration: u64,
+}
+
+#[cfg(feature = "verif-hooks")]
+impl Mp4TrackWriter {
+    pub(crate) fn verif_snapshot(&self) -> VerifTrackState {
+        let stbl = &self.trak.mdia.minf.stbl;
+        VerifTrackState {
+            track_id: self.trak.tkhd.track_id,
+            sample_id: self.sample_id,
+            chunk_samples: self.chunk_samples,
+            chunk_duration: self.chunk_duration,
+            chunk_buffer_len: self.chunk_buffer.len(),
+            is_fixed_sample_size: self.is_fixed_sample_size,
+            fixed_sample_size: self.fixed_sample_size,
+            stsz_sample_size: stbl.stsz.sample_size,
+            stsz_sample_count: stbl.stsz.sample_count,
+            stsz_len: stbl.stsz.sample_sizes.len(),
+            stts_entries: stbl.stts.entries.len(),
+            stts_samples: stbl.stts.entries.iter().map(|e| e.sample_count as u64).sum(),
+            ctts_entries: stbl.ctts.as_ref().map(|c| c.entries.len()),
+            ctts_samples: stbl
+                .ctts
+                .as_ref()
+                .map(|c| c.entries.iter().map(|e| e.sample_count as u64).sum()),
+            stss_entries: stbl.stss.as_ref().map(|s| s.entries.len()),
+            stsc_entries: stbl.stsc.entries.len(),
+            chunk_offsets: stbl
+                .co64
+                .as_ref()
+                .map(|c| c.entries.len())
+                .or_else(|| stbl.stco.as_ref().map(|c| c.entries.len()))
+                .unwrap_or(0),
+            mdhd_duration: self.trak.mdia.mdhd.duration,
+            tkhd_duration: self.trak.tkhd.duration,
+        }
+    }
+}
